@@ -33,7 +33,9 @@ def gen_run(prop, master, tier, index, V, bias=None):
 def _init(repo):
     global _W, _V
     import faulthandler
+    import signal
     faulthandler.enable()
+    faulthandler.register(signal.SIGUSR1, all_threads=True)
     _W = runner.Worker(repo)
     _V = E.Vocab(_W.replica.call("vocab"))
 
@@ -84,8 +86,15 @@ def run_chunk(args):
     W, V = _W, _V
     res = {"n": 0, "steps": 0, "fired": {}, "states": set(), "trans": set(), "seqs": {},
            "fail": [], "hashes": {}, "samples": [], "last_new": None, "notes": {}}
+    import signal
+
+    def on_alarm(signum, frame):
+        raise HarnessError("run exceeded its wall-clock cap")
+    signal.signal(signal.SIGALRM, on_alarm)
+    i = lo
     try:
         for i in range(lo, hi):
+            signal.alarm(180)
             run = gen_run(prop, master, tier, i, V, bias)
             trace = W.execute(run)
             viol = W.judge(run, trace)
@@ -117,7 +126,9 @@ def run_chunk(args):
                 res["fail"].append({"index": i, "run": run, "violations": viol})
         if check_replica:
             W.check_replica()
+        signal.alarm(0)
     except HarnessError as e:
+        signal.alarm(0)
         res["harness_error"] = "run %s: %s" % (i, e)
     except Exception:  # noqa: BLE001
         res["harness_error"] = "run %s: %s" % (i, traceback.format_exc())
